@@ -1282,3 +1282,19 @@ silent("pipeline-explain-keyword-options", ["C13", "C11"], PL,
 silent("runtime-exit-reads-then-deletes-last", ["C14", "C15", "C13"], RT,
        "            previous = stack.pop()",
        "            previous = stack[-1]\n            del stack[-1]")
+fire("switcherror-arguments-swapped", ["C12"], "R-KN", CO,
+     "                raise SwitchError(self.dispatch, key, self.lookup)",
+     "                raise SwitchError(key, self.dispatch, self.lookup)")
+fire("switcherror-source-is-the-value", ["C12"], "R-KN", CO,
+     "            f\"but must be one of {', '.join(map(str, lookup.keys()))}.\",\n            dispatch,\n        )",
+     "            dispatch,\n            f\"but must be one of {', '.join(map(str, lookup.keys()))}.\",\n        )",
+     note="message and source swapped in the call of EvaluationError.__init__")
+fire("cachegetfailure-arguments-swapped", ["C12"], "R-KN", C,
+     "    raise CacheGetFailure(request.evaluatable, request.options, request.cache)",
+     "    raise CacheGetFailure(request.options, request.evaluatable, request.cache)")
+fire("add-effects-drops-callables", ["C02"], "R-DC", D,
+     "            else:\n                self.effects.append(CallbackEffect(effect))",
+     "            elif isinstance(effect, CallbackEffect):\n                self.effects.append(CallbackEffect(effect))")
+silent("add-effects-builds-then-appends", ["C02"], D,
+       "        for effect in effects:\n            if isinstance(effect, Effect):\n                self.effects.append(effect)\n            else:\n                self.effects.append(CallbackEffect(effect))",
+       "        for effect in effects:\n            wrapped = effect if isinstance(effect, Effect) else CallbackEffect(effect)\n            self.effects.append(wrapped)")
